@@ -51,7 +51,7 @@ def catalogue(tier):
     # ---- StringField
     if thorough:
         sopts = list(_prod(min_len=[None, 0, 1, 3], max_len=[None, 0, 1, 3], regex=[None, "a+", "^a.c$"],
-                           choices=[None, ["a", "abc"]], transform_case=[None, "lower", "upper"],
+                           choices=[None, ["a", "abc"]], transform_case=[None, "lower", "upper", "LOWER", "Upper"],
                            transform_strip=[None, True, "x"], required=[None, True]))
     else:
         sopts = []
@@ -61,6 +61,10 @@ def catalogue(tier):
                                    (None, None, None, ["a", "abc"]), (1, None, "a+", ["a", "abc"]), (3, 3, None, None)]:
                 sopts.append({"min_len": mn, "max_len": mx, "regex": rx, "choices": ch, "transform_case": case,
                               "transform_strip": strip, "required": req})
+        # the option's own spelling is case-insensitive
+        for case, strip in itertools.product(["LOWER", "Upper", "uPPER"], [None, True, "x"]):
+            for mn, mx, rx, ch in [(None, None, None, None), (None, 3, "^a.c$", None), (None, None, None, ["a", "abc"])]:
+                sopts.append({"min_len": mn, "max_len": mx, "regex": rx, "choices": ch, "transform_case": case, "transform_strip": strip})
     cat.append(("Str", [_clean(o) for o in sopts], STR_VALUES + WRONG))
     # ---- numbers
     nb = [None, -1, 0, 5, 10] if not thorough else [None, -1, 0, 0.5, 5, 10, 2 ** 70]
@@ -127,7 +131,7 @@ def catalogue(tier):
     cat.append(("Secure", [{"method": m} for m in ("aes", "xor", "best")], secv + WRONG))
     lv = ["debug", "INFO", " Warning ", "error", "critical", "trace", "", "warn", "notice", " NOTICE "]
     cat.append(("LogLevel", [{}, {"levels": ["notice", "warn"]}, {"transform_case": "upper", "levels": ["NOTICE"]},
-                             {"transform_strip": False}, {"required": True}], lv + WRONG))
+                             {"transform_strip": False}, {"required": True}, {"transform_case": "Lower"}, {"transform_case": "UPPER", "levels": ["NOTICE"]}], lv + WRONG))
     mv = ["development", "PRODUCTION", " production ", "test", "", "dev", " DEV"]
     cat.append(("AppMode", [{}, {"modes": ["dev", "test"]}, {"create_helpers": False, "modes": ["dev", "a-b"]},
                             {"required": True}], mv + WRONG))
@@ -315,6 +319,19 @@ def check_pair(ctx, spec, vspec, case):
     def bad(what, msg):
         ctx.violation(fpbase + "|" + what, "%s value %s: %s" % (_optkey(spec), V.show(value, 60), msg), case)
 
+    if spec["k"] in ("List", "Dict") and _plain_encoded(spec) and type(value) in (list, dict):
+        # the same candidate arriving as an on-disk value: decoding it and validating the decoded container must
+        # accept exactly what validation of the candidate itself accepts (item kinds whose on-disk form is the value)
+        fresh = V.dec(vspec, res)
+        dec = _try(lambda: field.to_python(cfg, fresh))
+        after = _try(lambda: field.validate(cfg, dec[1])) if dec[0] == "ok" else dec
+        ctx.transitions += 2
+        if ref[0] == "rej" and after[0] == "ok" and (type(value) is list) == (spec["k"] == "List"):
+            ctx.violation(fpbase + "|accepts-invalid|decoded", "%s on-disk value %s: decoded and validated as %s but violates the declared constraint (%s)"
+                          % (_optkey(spec), V.show(value, 60), V.show(after[1], 60), ref[1]), case)
+        elif ref[0] == "ok" and (after[0] != "ok" or not R.matches(after[1], ref[1])):
+            ctx.violation(fpbase + "|decoded-differs", "%s on-disk value %s: decoding and validating gives %s, validation of the value itself %s"
+                          % (_optkey(spec), V.show(value, 60), V.show(after[1], 60), V.show(ref[1], 60)), case)
     if ref[0] == "rej":
         trivial = ref[1] in ("not a string", "type", "not a boolean", "not bytes", "not a list", "not a dict", "not a secret")
         ctx.case(key, "reject:" + ref[1], not trivial)
@@ -372,6 +389,12 @@ def check_pair(ctx, spec, vspec, case):
     ctx.traces += 1
     if r3[0] != "ok" or not _same(r3[1], r1):
         bad("roundtrip-revalidate", "validate(to_python(to_basic(%s))) gave %s" % (V.show(r1, 60), V.show(r3[1], 60)))
+
+
+def _plain_encoded(spec):
+    kinds = ("Int", "Str", "IPv4", "Bool", "Any", None)
+    subs = [spec.get("item")] if spec["k"] == "List" else [spec.get("key"), spec.get("val")]
+    return all((x or {}).get("k") in kinds for x in subs)
 
 
 def _untyped(spec):
